@@ -74,6 +74,17 @@ CLAIMED.update({
         note="The socket pair, selector and server object are fakes (kernel buffering, TLS, the accept loop and threading/forking mix-ins are not simulated). Server/Date header values come from the stdlib and are not compared.",
         technique="deterministic simulation: real request handler on a simulated socket with fragmenting / hanging-up / resetting client and generated application, conservation oracles",
     ),
+    "C07": dict(
+        category="exploration",
+        text="Hostile and corrupted clients at two injection levels: L1 a WSGI environ with seeded-mutated client-controlled variables is handed to Request; L2 the same request travels as "
+        "bytes through the real dev-server handler on the simulated socket. The simulator decides the part of C07 that depends on I/O: form/files/values/data/get_data/json/stream are read "
+        "from a SimStream with tape-chosen fragmentation, bodies shorter or longer than declared, injected OSError, server-terminated input and form limits; every escape must be an "
+        "HTTPException. All other Request attributes and the named header/cookie/query parsers are pure functions of a string: they are touched on every simulated request as workload "
+        "(seeded input generation only - the simulator adds nothing for them, and the evidence says so). A per-case CPU alarm bounds non-termination.",
+        design_ref="3.4",
+        note="Partial by design: header-only parsers ride along as workload. Requests the stdlib rejects before werkzeug code runs are outside the property. Known finding P4 (URL attributes with a malformed Host) is recorded.",
+        technique="deterministic simulation of the body-dependent attributes (fragmenting, truncating, failing input stream; wire level through the real handler) + seeded hostile-value workload for the pure parsers",
+    ),
 })
 
 NOT_APPLICABLE = {
